@@ -2,7 +2,7 @@
    Statements are spelled out over Model.v / Spec.v only (integers are injected
    in Qc as Q2Qc (inject_Z n); cumulative deltas are written with fold_right). *)
 From Coq Require Import List Bool ZArith QArith Qcanon.
-From AL Require Import Base.CaseLib C16.Model C16.Spec C16.Proofs.
+From AL Require Import Base.CaseLib C16.Model C16.Spec C16.Proofs C16.Proofs_Indep.
 Import ListNotations.
 Open Scope Qc_scope.
 
@@ -96,3 +96,30 @@ Print Assumptions C16_example_model.
 Example C16_example_spec : spec_run false 0 [] 0 false C16_example_ops = C16_example_out.
 Proof. vm_compute. reflexivity. Qed.
 Print Assumptions C16_example_spec.
+
+(* Round 2: objects are independent.  Two mixers (any keep / zero each) operated in an arbitrary interleaving of
+   add() and next() calls: what each one answers is the closed form of its OWN sub-history; likewise two control
+   streams.  (The harness families mixes / ctls compare the real objects, 2-3 alive at once, against exactly this.) *)
+Theorem C16_mixers_calls_independent : forall ka za kb zb ops,
+  on_side SideA (run2 ka za kb zb init init ops) = spec_run ka za [] 0 false (on_side SideA ops) /\
+  on_side SideB (run2 ka za kb zb init init ops) = spec_run kb zb [] 0 false (on_side SideB ops).
+Proof. exact run2_independent_spec. Qed.
+Print Assumptions C16_mixers_calls_independent.
+
+Theorem C16_controls_calls_independent : forall ops va vb,
+  on_side SideA (crun2 va vb ops) = cspec_run va [] (on_side SideA ops) /\
+  on_side SideB (crun2 va vb ops) = cspec_run vb [] (on_side SideB ops).
+Proof.
+  intros ops va vb. rewrite <- !C16_crun_eq_cspec_run. exact (crun2_independent ops va vb).
+Qed.
+Print Assumptions C16_controls_calls_independent.
+
+(* Non-vacuity: mixer A (keep off, zero 0) and mixer B (keep on, zero 7/3) interleaved. *)
+Example C16_example_two_mixers :
+  run2 false 0 true (qc 7 3) init init
+    [(SideA, Add 0 [qc 1 1; qc 2 1]); (SideB, Next); (SideB, Add (qc 1 2) [qc 10 1]); (SideA, Next);
+     (SideB, Next); (SideA, Next); (SideA, Next); (SideB, Next)]
+  = [(SideA, OAdded); (SideB, OItem (qc 7 3)); (SideB, OAdded); (SideA, OItem (qc 1 1));
+     (SideB, OItem (qc 37 3)); (SideA, OItem (qc 2 1)); (SideA, OStop); (SideB, OItem (qc 7 3))].
+Proof. vm_compute. reflexivity. Qed.
+Print Assumptions C16_example_two_mixers.
